@@ -835,6 +835,10 @@ def check(run: Run, lean: dict) -> int:
             print(f"KNOWN-FINDING: property=C04 {f['key']}: {f['description']}")
             run.known_hit.append(f["key"])
     rows = []
+    # the short special-purpose streams first: they do not depend on the time the long random streams take
+    suspended_iterators(run, "suspended iterators")
+    empty_in_chain(run, "empty text in a chain")
+    attr_scope_cases(run, "attributes given before attaching")
     for c in corpus():
         run_history(run, "corpus", c, rows)
     for _ in range(n):
@@ -845,10 +849,7 @@ def check(run: Run, lean: dict) -> int:
         if run.enough():
             break
         run_history(run, "single call, collections inside", c, rows)
-    suspended_iterators(run, "suspended iterators")
-    if not run.enough():
-        empty_in_chain(run, "empty text in a chain")
-        attr_scope_cases(run, "attributes given before attaching")
+
     if UNRAISABLE:
         run.count("unraisable exceptions in callbacks", len(UNRAISABLE))
         if not any("callback" in str(v.get("detail", "")) for v in run.violations):
